@@ -53,7 +53,10 @@ def _case(draw):
             "quiet": draw(st.sampled_from([False, False, True])),
             # "grow": the reader is constructed with open=False while the file is still shorter (copy / acquisition in
             # progress), the file then grows to the length under test, and only then is the reader opened
-            "deferred": draw(st.sampled_from([None, None, "grow"]))}
+            "deferred": draw(st.sampled_from([None, None, "grow"])),
+            # process state: user and runtime warnings turned into errors (python -W error, pytest filterwarnings=error);
+            # a size mismatch is announced through the logger, the file still opens
+            "strict_warnings": draw(st.sampled_from([False, False, True]))}
 
 
 @st.composite
@@ -200,6 +203,18 @@ def _run_huge(case, ctx):
 
 
 def run_case(case, ctx):
+    if case.get("strict_warnings"):
+        import warnings
+        ctx.label("warnings_as_errors")
+        with warnings.catch_warnings():
+            warnings.simplefilter("ignore")
+            warnings.simplefilter("error", UserWarning)
+            warnings.simplefilter("error", RuntimeWarning)
+            return _run_case(case, ctx)
+    return _run_case(case, ctx)
+
+
+def _run_case(case, ctx):
     if case.get("huge"):
         return _run_huge(case, ctx)
     sg = sut.spikeglx()
